@@ -345,7 +345,7 @@ def run_task(task):
         from liquer.store import MemoryStore, FileStore
         if mode == "nocache":
             cache, name = NoCache(), "NoCache"
-        elif mode == "cache":
+        elif mode in ("cache", "seq"):
             name, factory, _ = EP.cache_configs(tmp)[cfg]
             cache = factory()
         else:
@@ -357,10 +357,18 @@ def run_task(task):
             return res
         res["outcome"], res["actions"] = e["kind"], e.get("n_actions", 0)
         key = e["canonical"]
-        rounds = ["only"] if mode == "nocache" else ["cold", "warm"]
+        rounds = ["only"] if mode == "nocache" else ["cold", "after-extensions"] if mode == "seq" else ["cold", "warm"]
         first = None
         for rnd in rounds:
             EP.set_global(cache, dflt)
+            if rnd == "after-extensions":
+                # evaluate extensions of the (now cached) query in between: they must not change what the query itself returns / keeps
+                for tail in ("/x_seq.txt", "/ident", "/attr2/y.JSON"):
+                    try:
+                        evaluate_once(q + tail)
+                    except Exception:
+                        pass
+                EP.set_global(cache, dflt)
             tag = name if mode == "nocache" else "%s:%s" % (name, rnd)
             if mode == "store":
                 ext = e.get("extension") if e["kind"] == "value" else None
@@ -463,6 +471,9 @@ def gen_failing(ctx, n):
 NO_ACTION = ["x.txt", "a.B.JSON", ".", "-/x.csv"]
 
 
+DICT_QUERIES = ["dct-a/setk-b", "dct-a/setk-b/setk-c", "dct/ident/setk-z", "dct-a/setk-b/x.json", "dct-a/setk-b/attr1/setk-c", "dct-k/setk-k"]
+
+
 def gen_cases(ctx, quick):
     rng = ctx.rng
     ncfg = len(EP.cache_configs("/nonexistent"))
@@ -471,7 +482,7 @@ def gen_cases(ctx, quick):
     attrs = gen_attr_chains(rng, 150 if quick else 3000)
     links = gen_links_subs(rng, 150 if quick else 3000)
     failing = gen_failing(ctx, 150 if quick else 3000)
-    pool = general + fn_all + attrs + links + failing + [("no-action", q) for q in NO_ACTION]
+    pool = general + fn_all + attrs + links + failing + [("no-action", q) for q in NO_ACTION] + [("dict", q) for q in DICT_QUERIES]
     tasks = [("nocache", None, q, {}, fam) for fam, q in pool]
     # every cache configuration: a slice of every family
     per = 36 if quick else 480
@@ -482,6 +493,10 @@ def gen_cases(ctx, quick):
     # every extension once per cache kind over the run: rotate the file-name queries over the configurations
     for i, (fam, q) in enumerate(fn_all if not quick else fn_all[::3]):
         tasks.append(("cache", i % ncfg, q, {}, fam))
+    # in-place mutated dictionaries (implementation-side oracle only) and re-evaluation after an extension was evaluated
+    for ci in range(ncfg):
+        tasks += [("cache", ci, q, {}, "dict") for q in DICT_QUERIES[:3]]
+        tasks += [("seq", ci, q, {}, fam) for fam, q in rng.sample(general + attrs, 4 if quick else 40) + [("general", "hello-x/cat-y"), ("attributes", "one/attr1")]]
     for skind in ("mem", "file"):
         n = 110 if quick else 1500
         pick = rng.sample(fn_all, min(len(fn_all), n // 2)) + rng.sample(general, n // 6) + rng.sample(links, n // 6) + rng.sample(failing, n // 6) + [("no-action", "x.txt")]
@@ -499,7 +514,7 @@ def account(ctx, tasks, results):
     for (mode, cfg, q, dflt, fam), res in zip(tasks, results):
         nontrivial = res["actions"] > 0
         ctx.case(("%s|%s|%s" % (mode, cfg, q)) if nontrivial else None)
-        ctx.count("mode", mode if mode != "cache" else "cache:" + EP.cache_configs("/nonexistent")[cfg][0])
+        ctx.count("mode", mode if mode not in ("cache", "seq") else mode + ":" + EP.cache_configs("/nonexistent")[cfg][0])
         ctx.count("family", fam.split("-")[0] if fam.startswith("failing") else fam)
         ctx.count("reference outcome", res["outcome"])
         for key, text in res["bad"]:
@@ -534,13 +549,15 @@ def correspond(ctx, tasks, results):
     """returned metadata vs the Lean model, per mode; model outcome vs reference interpretation"""
     reqs, impl, cases, streams = [], [], [], []
     for (mode, cfg, q, dflt, fam), res in zip(tasks, results):
+        if fam == "dict":
+            continue            # dictionaries are outside the model's value domain: implementation-side oracle only
         for line, tag in zip(res["lines"], res["tags"]):
             if line == "UNSAVED" or line.startswith("EXC "):
                 continue
             reqs.append("eval.meta %s %s" % (dflt_wire(dflt), "E:" + hx(q)))
             impl.append(line)
             cases.append("%s %s" % (tag, q))
-            streams.append({"nocache": "returned metadata vs eval.meta (NoCache)", "cache": "returned metadata vs eval.meta (cache configurations, cold and warm)",
+            streams.append({"nocache": "returned metadata vs eval.meta (NoCache)", "cache": "returned metadata vs eval.meta (cache configurations, cold and warm)", "seq": "returned metadata vs eval.meta (re-evaluation after extensions were evaluated)",
                             "store": "returned metadata vs eval.meta (store_key, cold and warm)"}[mode])
     uniq = sorted(set(reqs))
     ans = ctx.driver.ask(uniq)
